@@ -1562,9 +1562,10 @@ class _StatefulMultiProcessingDataLoaderIter(_StatefulBaseDataLoaderIter):
         main_snapshot_idx = None
         while len(self._main_snapshots) and (self._main_snapshots[0][0] <= self._rcvd_idx - 1):
             main_snapshot_idx, main_snapshot = self._main_snapshots.popleft()
-        if not self._in_order and main_snapshot_idx is None:
-            # in_order is False and no main snapshot is available as we're ahead of rcvd_idx
-            # we can't take a snapshot with the current implementation
+        if not self._in_order and main_snapshot_idx != self._rcvd_idx - 1:
+            # in_order is False: the batch being yielded is not necessarily task rcvd_idx - 1, so the
+            # main snapshot recorded for it may be missing (we're ahead of rcvd_idx) or belong to an
+            # earlier task; we can't take a snapshot with the current implementation
             return
         assert main_snapshot_idx == self._rcvd_idx - 1, (
             main_snapshot_idx,
